@@ -175,7 +175,15 @@ func signing(r *ev.Run) {
 				eps[i] = "127.0.0.77"
 			}
 		}
-		conf := crypki.SignerConfig{TLSClientKeyFile: clientKey, TLSClientCertFile: clientCert, TLSCACertFiles: []string{caPath}, CrypkiEndpoints: eps, CrypkiPort: uint(port), Retries: 1, PerTryTimeout: 300 * time.Millisecond}
+		// generous per-try deadline so that a loaded machine cannot make a healthy server look dead; only the
+		// cases with a hanging server pay for a (shorter) deadline
+		perTry := 10 * time.Second
+		for _, k := range kinds {
+			if k == "hang" {
+				perTry = 1500 * time.Millisecond
+			}
+		}
+		conf := crypki.SignerConfig{TLSClientKeyFile: clientKey, TLSClientCertFile: clientCert, TLSCACertFiles: []string{caPath}, CrypkiEndpoints: eps, CrypkiPort: uint(port), Retries: 1, PerTryTimeout: perTry}
 		r.Eval(1)
 		var certs []ssh.PublicKey
 		var comments []string
@@ -189,7 +197,7 @@ func signing(r *ev.Run) {
 			if cerr != nil {
 				return
 			}
-			ctx, cancel := context.WithTimeout(context.Background(), 20*time.Second)
+			ctx, cancel := context.WithTimeout(context.Background(), 60*time.Second)
 			defer cancel()
 			certs, comments, serr = signer.Sign(ctx, req)
 		}) {
@@ -324,8 +332,10 @@ func signing(r *ev.Run) {
 	for _, k := range []string{"hang", "refused"} {
 		one([]string{ips[0], ips[1]}, []string{k, "ok"}, false)
 		one([]string{ips[0], ips[1], ips[2]}, []string{"code:Internal", k, "ok"}, false)
-		one([]string{ips[0]}, []string{k}, false)
-		one([]string{ips[2], ips[0]}, []string{k, k}, false)
+		if k == "refused" || r.Thorough() {
+			one([]string{ips[0]}, []string{k}, false)
+			one([]string{ips[2], ips[0]}, []string{k, k}, false)
+		}
 	}
 	// the same Signer is used for several calls while the endpoints' health changes: every call starts from the first endpoint again
 	for k := 0; k < r.Pick(12, 120); k++ {
@@ -335,7 +345,7 @@ func signing(r *ev.Run) {
 		}
 		n := 2 + c.Rand.Intn(3)
 		list := append([]string{}, perms[k%len(perms)][:n]...)
-		conf := crypki.SignerConfig{TLSClientKeyFile: clientKey, TLSClientCertFile: clientCert, TLSCACertFiles: []string{caPath}, CrypkiEndpoints: list, CrypkiPort: uint(port), Retries: 1, PerTryTimeout: 300 * time.Millisecond}
+		conf := crypki.SignerConfig{TLSClientKeyFile: clientKey, TLSClientCertFile: clientCert, TLSCACertFiles: []string{caPath}, CrypkiEndpoints: list, CrypkiPort: uint(port), Retries: 1, PerTryTimeout: 10 * time.Second}
 		signer, err := crypki.NewSigner(conf)
 		if err != nil {
 			r.Violation(c, "signer-construction-fails:sequence", err.Error(), nil)
